@@ -274,7 +274,17 @@ pub fn mutual_scenario(idx: usize, seed: u64, rounds: usize) -> ScenarioResult {
         for round in 0..rounds {
             let gate = Arc::new(tokio::sync::Barrier::new(2));
             let skew_a = Duration::from_micros(if rng.gen_bool(0.5) { 0 } else { rng.gen_range(0..800) });
-            let skew_b = Duration::from_micros(if rng.gen_bool(0.5) { 0 } else { rng.gen_range(0..800) });
+            let mut skew_b = Duration::from_micros(if rng.gen_bool(0.5) { 0 } else { rng.gen_range(0..800) });
+            let mut skew_a = skew_a;
+            if round == 1 {
+                // one round per scenario in REAL seconds: the second dial completes 2-3 s after the
+                // first (code that reads the wall clock - connection ages, caches with a time to
+                // live - cannot be reached by the virtual-time scenarios)
+                let late = Duration::from_millis(rng.gen_range(2_100..3_000));
+                // (which side is late - the lesser or the greater identity - alternates with the scenario)
+                let a_is_lesser = ida < idb;
+                if (idx % 2 == 0) == a_is_lesser { skew_a = late } else { skew_b = late }
+            }
             let pin = rng.gen_bool(0.3);
             let (a2, b2, g1, g2) = (a.clone(), b.clone(), gate.clone(), gate.clone());
             let ha = tokio::spawn(async move {
